@@ -16,7 +16,7 @@ def setup():
 
 def sample_partitions(shape, k=3):
     out = []
-    for part in family.partitions(shape.slots):
+    for part in family.var_partitions(shape, 120):
         if tharness.compiles(shape, part, []):
             out.append(part)
     if not out:
